@@ -233,6 +233,35 @@ theorem accepted_arrays_within_limit (bo : ByteOrder) (buf : List UInt8) (nfds :
     | struct vs => simp [enc] at h4
     | variant t v => simp [enc] at h4
 
+private theorem depthOfList_base (b : Base) (vs : List Val) : depthOfList (.base b) vs = 0 := by
+  induction vs with
+  | nil => rfl
+  | cons v vs ih => simp only [depthOfList, depthOf, ih]; rfl
+
+/-- 4g. The boundary is exact on complete data. An array of `n` fixed-size elements of width `k` that is
+    completely present: if `k * n ≤ 64 MiB` it has an encoding and validation accepts it wherever it stands
+    (any prefix, any suffix); if `k * n > 64 MiB` every buffer whose length word reads `k * n` is rejected,
+    although all the bytes may be there. (The driver answers `c18.fullarr` with `arrOk k n`.) -/
+theorem decode_boundary (bo : ByteOrder) (b : Base) (k : Nat) (ns : List Nat)
+    (hb : Marshal.fastElem b = true) (hk : b.fixedSize = some k) (hn : ∀ n ∈ ns, n < 256 ^ k) :
+    (k * ns.length ≤ maxArrayLen → ∀ pre suf : List UInt8,
+      ∃ bs, enc bo pre.length (.array (.base b)) (.arr (ns.map Val.num)) = some bs ∧
+        validate bo (pre ++ (bs ++ suf)) pre.length (.array (.base b)) = some bs.length) ∧
+    (maxArrayLen < k * ns.length → ∀ (buf : List UInt8) (off : Nat) (nfds : Option Nat) (d lim : Nat),
+      valOf bo (slice buf (lenPos off) 4) = k * ns.length →
+      dec bo buf nfds d (.array (.base b)) off lim = none) := by
+  constructor
+  · intro hle pre suf
+    have h : (enc bo pre.length (.array (.base b)) (.arr (ns.map Val.num))).isSome = true := by
+      rw [fixed_array_isSome bo pre.length b k ns hb hk hn]; simp [arrOk, hle]
+    cases he : enc bo pre.length (.array (.base b)) (.arr (ns.map Val.num)) with
+    | none => rw [he] at h; cases h
+    | some bs =>
+      refine ⟨bs, rfl, validate_roundtrip bo _ _ pre bs suf he ?_⟩
+      simp only [depthOf, depthOfList_base]; unfold maxDepth; omega
+  · intro hgt buf off nfds d lim hw
+    exact (array_limit_checked_first bo buf off (by rw [hw]; exact hgt) buf rfl nfds d lim).1 (.base b)
+
 /-- 5a. Depth limit, acceptance side (C03): validation accepts exactly the encodings of values nested at most
     64 levels deep — a deeper value is never accepted, a value of depth ≤ 64 always is. -/
 theorem depth_limit (bo : ByteOrder) (buf : List UInt8) (off : Nat) (t : Ty) (n : Nat) :
@@ -565,6 +594,7 @@ end Rustbus.Limits
 #print axioms Rustbus.Limits.oversized_length_stops_decoding
 #print axioms Rustbus.Limits.array_limit_instrumented
 #print axioms Rustbus.Limits.accepted_arrays_within_limit
+#print axioms Rustbus.Limits.decode_boundary
 #print axioms Rustbus.Limits.depth_limit
 #print axioms Rustbus.Limits.depth_limit_enforced_on_entry
 #print axioms Rustbus.Limits.deeper_than_64_rejected
